@@ -22,7 +22,7 @@ fn no_nulls(v: Value) -> Value {
 
 pub trait Driveable: Engine {
     /// a random command (same command language as the spec's Cmds) enabled in local state s
-    fn random_cmd(s: &Self::S, rng: &mut StdRng, d: &Dims) -> Option<Value>;
+    fn random_cmd(s: &Self::S, r: usize, rng: &mut StdRng, d: &Dims) -> Option<Value>;
 }
 
 pub struct DriveOpts {
@@ -49,7 +49,7 @@ pub fn drive<E: Driveable>(out: &str, o: &DriveOpts) {
             let roll: f64 = rng.gen();
             let r = rng.gen_range(1..=n);
             let act: Option<Value> = if roll < 0.35 && sys.ops.len() < o.max_ops {
-                E::random_cmd(&sys.st[r - 1], &mut rng, &d).map(|c| json!(["gen", r, c]))
+                E::random_cmd(&sys.st[r - 1], r, &mut rng, &d).map(|c| json!(["gen", r, c]))
             } else if roll < 0.75 {
                 // a delivery allowed by the regime
                 let cands: Vec<usize> = (1..=sys.ops.len())
@@ -108,7 +108,7 @@ pub fn drive<E: Driveable>(out: &str, o: &DriveOpts) {
             let s = &sys.st[rr - 1];
             let ev = json!({
                 "a": act[0], "r": rr, "x": act[2], "h": hno,
-                "post": E::proj(s, &d), "reads": E::reads(s, &d),
+                "post": E::proj(s, &d), "tpost": E::trace_post(s, &d), "reads": E::reads(s, &d),
                 "op": match sys.last_op.as_ref() { Some(op) => json!([E::op_proj(op, &d)]), None => json!([]) },
             });
             let _ = who;
@@ -116,7 +116,7 @@ pub fn drive<E: Driveable>(out: &str, o: &DriveOpts) {
             events += 1;
         }
         let fresh = E::new_state();
-        writeln!(w, "{}", no_nulls(json!({"a": "reset", "r": 1, "x": 0, "h": hno, "post": E::proj(&fresh, &d), "reads": E::reads(&fresh, &d), "op": []}))).unwrap();
+        writeln!(w, "{}", no_nulls(json!({"a": "reset", "r": 1, "x": 0, "h": hno, "post": E::proj(&fresh, &d), "tpost": E::trace_post(&fresh, &d), "reads": E::reads(&fresh, &d), "op": []}))).unwrap();
         events += 1;
     }
     w.flush().unwrap();
